@@ -13,6 +13,9 @@ pub mod n6 {
 use n6::*;
 
 //@ include pt_prelude.tpl PACKETS=empty.tpl
+/// `Err(e.into())` / `?` into anyhow::Error (N10)
+pub trait IntoVErr { spec fn as_verr(self) -> VErr; fn into_verr(self) -> (r: VErr) ensures r == self.as_verr(); }
+impl IntoVErr for ZVTError { open spec fn as_verr(self) -> VErr { VErr::Zvt(self) } fn into_verr(self) -> (r: VErr) { VErr::Zvt(self) } }
 
 impl<S> PacketTransport<S>
 where
